@@ -113,7 +113,7 @@ func (e *FEnc) atCall(st *State, in ssa.Instruction, name string, args []*Val, r
 				continue
 			}
 			// the clause cannot be evaluated at this call site: it must be one the clause does not apply to
-			e.unsupportedOnce(fmt.Sprintf("at-call %s %q (treated as false where its 'when' holds): %v", c.Pat, c.Src, err))
+			e.note(fmt.Sprintf("at-call %s [%s] cannot be evaluated at %s (%v): treated as false there, so its 'when' must not hold", c.Pat, c.Label, e.posOf(in.Pos()), err))
 			g = "false"
 		}
 		e.obligePart("atcall", clauseKey(c, "atcall("+c.Pat+")"), c.Props, in.Pos(), "at "+name+": "+c.Src, reach, g)
@@ -338,6 +338,12 @@ afterPublish:
 	}
 	if result != nil {
 		define(result)
+		if st.lastRes == nil {
+			st.lastRes = map[string]*Val{}
+		}
+		if result.T != "" || len(result.Tup) > 0 || result.P != nil || len(result.Fields) > 0 {
+			st.lastRes[name] = result
+		}
 	}
 	if fc != nil && sig != nil {
 		var rs []*Val
@@ -544,7 +550,11 @@ func (e *FEnc) pureArg(st *State, a *Val) *Val {
 	}
 	if pt, ok := a.Ty.Underlying().(*types.Pointer); ok {
 		if structOf(pt.Elem()) != nil && st != nil {
-			return e.load(st, e.ptrOf(a))
+			// only structures defined in the repository: handles of other packages (*fiber.Ctx, ...) are
+			// opaque identities whose purity is a trusted assumption
+			if n := namedOf(pt.Elem()); n != nil && n.Obj().Pkg() != nil && strings.HasPrefix(n.Obj().Pkg().Path(), "github.com/versity/versitygw") {
+				return e.load(st, e.ptrOf(a))
+			}
 		}
 	}
 	return a
